@@ -473,10 +473,10 @@ def run(ctx):
     ctx.coq_props()
     rng = ctx.rng
     quick = ctx.tier == "quick"
-    n_det = 700 if quick else 6000
-    n_jax = 8 if quick else 80
-    n_valid = 40 if quick else 400
-    n_stat = 12 if quick else 40
+    n_det = 500 if quick else 6000
+    n_jax = 6 if quick else 80
+    n_valid = 32 if quick else 400
+    n_stat = 9 if quick else 40
     nshots = 20000 if quick else 1000000
 
     det = [dict(c) for c in CORPUS]
